@@ -245,3 +245,38 @@ def read_gro(text):
                       'z': line[36:44].strip()})
     box = lines[2 + natoms].split() if len(lines) > 2 + natoms else []
     return {'title': title, 'atoms': atoms, 'box': box}
+
+
+def read_param_file(text):
+    """A parameter include file holding [ atomtypes ] and / or [ nonbond_params ] (GROMACS manual, "Topology file",
+    directives of the parameter level): per [ atomtypes ] line the NAME (first column), per [ nonbond_params ] line the two
+    type names (first two columns).  #ifdef / #ifndef / #endif lines are listed, anything else that fits no directive is
+    'malformed'.  Added for C03 (go_atomtypes.itp, go_nbparams.itp, virtual_sites_*.itp); shares nothing with vermouth."""
+    out = {'sections': [], 'atomtypes': [], 'nbparams': [], 'conditions': [], 'malformed': []}
+    section = None
+    for line in _logical_lines(text):
+        body, _comment = _split_comment(line)
+        if not body:
+            continue
+        if body.startswith('#'):
+            toks = body[1:].split()
+            if toks and toks[0] in ('ifdef', 'ifndef', 'endif', 'else'):
+                out['conditions'].append(toks)
+            else:
+                out['malformed'].append(body)
+            continue
+        m = _SECTION.match(body)
+        if m:
+            section = m.group(1)
+            out['sections'].append(section)
+            continue
+        toks = body.split()
+        if section == 'atomtypes' and len(toks) >= 6:
+            # name [bonded type [at. number]] mass charge ptype V W: at least six columns
+            out['atomtypes'].append(toks[0])
+        elif section == 'nonbond_params' and len(toks) >= 5:
+            # i j func V W
+            out['nbparams'].append([toks[0], toks[1]])
+        else:
+            out['malformed'].append(body)
+    return out
